@@ -6,10 +6,13 @@ From PW Require Import Num NumQ Vec NpList Result Agree.
 From PW.model Require Import M_polyline_base M_plane M_serialize.
 Import ListNotations.
 Local Open Scope Q_scope.
+Local Open Scope string_scope.
 
-(* k / 10^d is not a double: the observed value is its correctly rounded quotient *)
+(* k / 10^d is not a double: the observed value is its correctly rounded quotient.  Purely relative (no absolute
+   floor): a result at scale 1e-9 is compared as strictly as one at scale 1; an exact 0 must be observed as 0. *)
 Definition tol15 : Q := 1 # 1000000000000000.
-Definition num_agree (m : Q) (o : fl) : bool := match o with Fin q => close_tol tol15 m q | _ => false end.
+Definition close15 (a b : Q) : bool := Qle_bool (Qabs (a - b)) (tol15 * Qmax' (Qabs a) (Qabs b)).
+Definition num_agree (m : Q) (o : fl) : bool := match o with Fin q => close15 m q | _ => false end.
 Definition vec_agree (m : vec3 Q) (o : list fl) : bool := all2 num_agree (vlist m) o.
 
 Fixpoint json_agree (m : json Q) (o : json fl) : bool :=
@@ -37,53 +40,89 @@ Definition poly_agree (p : polyline Q) (o : opoly) : bool :=
 Record oplane := OPlane { o_ref : list fl; o_normal : list fl }.
 Definition plane_agree (p : plane Q) (o : oplane) : bool := vec_agree (pref p) (o_ref o) && vec_agree (pnormal p) (o_normal o).
 
-(* a coordinate whose scaled value is within 1e-3 of a rounding tie is not judged unless the inputs make
-   x * 10^d exact in binary64 (<= 20 significant bits) *)
+(* observed outcome: a value, a builtin exception class, or a refusal by the validator (jsonschema.ValidationError).
+   The models mark a refusal with OtherError; it agrees with ORefused only, never with an unrelated exception. *)
+Inductive ores (A : Type) := OOk (a : A) | ORaise (e : exn) | ORefused.
+Arguments OOk {A}. Arguments ORaise {A}. Arguments ORefused {A}.
+Definition ores_agree {A B} (f : A -> B -> bool) (m : result A) (o : ores B) : bool :=
+  match m, o with
+  | Ok a, OOk b => f a b
+  | Raise OtherError, ORefused => true
+  | Raise OtherError, _ => false
+  | Raise e, ORaise e' => exn_eqb e e'
+  | _, _ => false
+  end.
+
+(* Rounding of one coordinate.  When x * 10^d is exact in binary64 (<= 20 significant bits) np.around is the exact
+   decimal rounding, ties to even, and is compared as such.  For a full-mantissa x the product is rounded before rint:
+   within the noise of a tie (1e-3 of a unit, plus 1e-15 relative to the scaled value) the neighbouring decimal is also
+   possible, and only the property's own bound (half a unit of the last kept decimal) is demanded there. *)
 Definition near_tie (d : nat) (x : Q) : bool :=
   let y := x * inject_Z (10 ^ Z.of_nat d) in
   let f := y - inject_Z (Qfloor y) in
-  Qle_bool (Qabs (f - (1 # 2))) (1 # 1000).
-Definition vec_near_tie d (v : vec3 Q) := near_tie d (vx v) || near_tie d (vy v) || near_tie d (vz v).
-(* error bound of the property: half a unit in the last kept decimal (1e-15 slack for the final division) *)
+  Qle_bool (Qabs (f - (1 # 2))) ((1 # 1000) + tol15 * Qabs y).
 Definition within_half_unit (d : nat) (x : Q) (o : fl) : bool :=
   match o with
-  | Fin q => Qle_bool (Qabs (q - x)) ((1 # 2) / inject_Z (10 ^ Z.of_nat d) + tol15 * Qmax' 1 (Qabs x))
+  | Fin q => Qle_bool (Qabs (q - x)) ((1 # 2) / inject_Z (10 ^ Z.of_nat d) + tol15 * Qmax' (Qabs x) (Qabs q))
+  | _ => false
+  end.
+Definition round_agree (exact : bool) (d : nat) (x : Q) (o : fl) : bool :=
+  within_half_unit d x o &&
+  (num_agree (round_dec QOps d x) o || (negb exact && near_tie d x)).
+Definition vec_round (exact : bool) d (v : vec3 Q) (o : list fl) : bool := all2 (round_agree exact d) (vlist v) o.
+Definition poly_round (exact : bool) d (p : polyline Q) (o : opoly) : bool :=
+  all2 (vec_round exact d) (pv p) (o_v o) && Bool.eqb (pclosed p) (o_closed o).
+Definition jvec_round (exact : bool) d (v : vec3 Q) (j : json fl) : bool :=
+  match j with JArr [JNum a; JNum b; JNum c] => vec_round exact d v [a; b; c] | _ => false end.
+Definition poly_ser_round (exact : bool) d (p : polyline Q) (j : json fl) : bool :=
+  match j with
+  | JObj [(k1, JArr rows); (k2, JBool c)] =>
+      String.eqb k1 "vertices" && String.eqb k2 "isClosed" && Bool.eqb c (pclosed p) &&
+      all2 (jvec_round exact d) (pv p) rows
+  | _ => false
+  end.
+Definition plane_round (er en : bool) pd dd (pl : plane Q) (o : oplane) : bool :=
+  vec_round er pd (pref pl) (o_ref o) && vec_round en dd (pnormal pl) (o_normal o).
+Definition plane_ser_round (er en : bool) pd dd (pl : plane Q) (j : json fl) : bool :=
+  match j with
+  | JObj [(k1, a); (k2, b)] =>
+      String.eqb k1 "referencePoint" && String.eqb k2 "unitNormal" && jvec_round er pd (pref pl) a && jvec_round en dd (pnormal pl) b
   | _ => false
   end.
 
 Inductive case :=
 (* Polyline p, decimals d: serialize(d); validate verdict; deserialize(loads(dumps(serialize(d)))); rounded(d) *)
-| CPolyline (p : polyline Q) (d : nat) (ser : json fl) (valid : bool) (deser : result opoly) (rounded : opoly)
-(* Plane: serialize(pd, dd) or its exception; validate verdict; deserialize of the text round trip; rounded(pd, dd) *)
-| CPlane (exact : bool) (pl : plane Q) (pd dd : nat) (ser : result (json fl)) (valid : bool)
-         (deser : result oplane) (rounded : result oplane)
+| CPolyline (exact : bool) (p : polyline Q) (d : nat) (ser : json fl) (valid : bool) (deser : ores opoly) (rounded : opoly)
+(* Plane: serialize(pd, dd) or its exception; validate verdict; deserialize of the text round trip; rounded(pd, dd);
+   er / en: reference point / normal have <= 20 significant bits *)
+| CPlane (er en : bool) (pl : plane Q) (pd dd : nat) (ser : ores (json fl)) (valid : bool)
+         (deser : ores oplane) (rounded : ores oplane)
 (* a (possibly corrupted) document: jsonschema's verdict and the outcome of deserialize *)
-| CDocPolyline (doc : json Q) (accepted : bool) (deser : result opoly)
-| CDocPlane (doc : json Q) (accepted : bool) (deser : result oplane)
+| CDocPolyline (doc : json Q) (accepted : bool) (deser : ores opoly)
+| CDocPlane (doc : json Q) (accepted : bool) (deser : ores oplane)
 (* "definitions" of schema.json as extracted on this run *)
 | CSchema (defs : list (string * schema))
 | CFail.
 
 Definition check_case (c : case) : bool :=
   match c with
-  | CPolyline p d ser valid deser rounded =>
-      json_agree (pl_serialize QOps d p) ser &&
+  | CPolyline exact p d ser valid deser rounded =>
+      poly_ser_round exact d p ser &&
       Bool.eqb (pl_validate (pl_serialize QOps d p)) valid &&
-      res_agree poly_agree (pl_deserialize (pl_serialize QOps d p)) deser &&
-      poly_agree (pl_rounded QOps d p) rounded &&
-      forallb (fun vo => all2 (within_half_unit d) (vlist (fst vo)) (snd vo)) (zip (pv p) (o_v rounded))
-  | CPlane exact pl pd dd ser valid deser rounded =>
-      negb (exact || negb (vec_near_tie dd (pnormal pl) || vec_near_tie pd (pref pl))) ||
-      (res_agree json_agree (plane_serialize QOps pd dd pl) ser &&
-       res_agree plane_agree (plane_rounded QOps pd dd pl) rounded &&
-       match plane_serialize QOps pd dd pl with
-       | Ok j => Bool.eqb (plane_validate j) valid && res_agree plane_agree (plane_deserialize QOps j) deser
-       | Raise _ => true
-       end)
+      ores_agree (fun _ o => poly_round exact d p o) (pl_deserialize (pl_serialize QOps d p)) deser &&
+      poly_round exact d p rounded
+  | CPlane er en pl pd dd ser valid deser rounded =>
+      ores_agree (fun _ o => plane_round er en pd dd pl o) (plane_rounded QOps pd dd pl) rounded &&
+      ores_agree (fun _ j => plane_ser_round er en pd dd pl j) (plane_serialize QOps pd dd pl) ser &&
+      match plane_serialize QOps pd dd pl with
+      | Ok j => Bool.eqb (plane_validate j) valid &&
+                ores_agree (fun _ o => plane_round er en pd dd pl o) (plane_deserialize QOps j) deser
+      | Raise _ => true
+      end
   | CDocPolyline doc accepted deser =>
-      Bool.eqb (pl_validate doc) accepted && res_agree poly_agree (pl_deserialize doc) deser
+      Bool.eqb (pl_validate doc) accepted && ores_agree poly_agree (pl_deserialize doc) deser
   | CDocPlane doc accepted deser =>
-      Bool.eqb (plane_validate doc) accepted && res_agree plane_agree (plane_deserialize QOps doc) deser
+      Bool.eqb (plane_validate doc) accepted && ores_agree plane_agree (plane_deserialize QOps doc) deser
   | CSchema defs => defs_eqb defs polliwog_defs
   | CFail => false
   end.
